@@ -88,3 +88,7 @@ pub fn generate(seed: u64, thorough: bool) -> Vec<String> {
     }
     out
 }
+
+pub fn cli(args: &[String]) {
+    standard_cli(args, generate, run_case)
+}
